@@ -63,12 +63,6 @@ class ChunkLoop(PathRule):
                 return [st - {"R"}]
         return [st]
 
-    def enter_loop(self, node, st):
-        if "R" in st:
-            self.bad.append((node.lineno, "a non-empty chunk is dropped: the next iteration starts before update(chunk)"))
-            return st - {"R"}
-        return st
-
 
 def r_chunk_loop(model, rep):
     f = model.function("treeinfo", "compute_checksum")
